@@ -7,11 +7,72 @@ import time
 import z3
 
 
+_SK = [0]
+
+
+def skolemize_goal(goal):
+    """a universally quantified goal is refuted on fresh constants; the instances of its triggers are asserted as harmless
+    ground facts Trig(t), so that E-matching sees them whatever the SAT core considers relevant.  (forall x. phi is valid
+    iff phi[c/x] is valid for fresh c.)"""
+    extra = []
+    g = goal
+    while z3.is_quantifier(g) and g.is_forall():
+        n = g.num_vars()
+        _SK[0] += 1
+        consts = [z3.Const('sk!%s!%d' % (g.var_name(i), _SK[0]), g.var_sort(i)) for i in range(n)]
+        rev = list(reversed(consts))
+        for pi in range(g.num_patterns()):
+            for t in g.pattern(pi).children():
+                tt = z3.substitute_vars(t, *rev)
+                srt = tt.sort()
+                f = z3.Function('Trig_%s' % str(srt).replace(' ', '_').replace('(', '_').replace(')', '_'), srt, z3.BoolSort())
+                extra.append(f(tt))
+        g = z3.substitute_vars(g.body(), *rev)
+    return extra, g
+
+
+def split_goal(goal, ghost_defs, max_leaves=16):
+    """sub-goals whose conjunction is equivalent to `goal`: conjunctions are split, implications move their antecedent to
+    the hypotheses, universal quantifiers are instantiated on fresh constants (with their trigger instances asserted), and a
+    ghost predicate with a definition is replaced by its definition (twice at most).  Returns [(extra hypotheses, leaf)]."""
+    leaves = []
+
+    def go(g, hyps, depth):
+        if len(leaves) > max_leaves:
+            raise OverflowError
+        if z3.is_and(g):
+            for c in g.children():
+                go(c, hyps, depth)
+            return
+        if z3.is_implies(g):
+            go(g.arg(1), hyps + [g.arg(0)], depth)
+            return
+        if z3.is_quantifier(g) and g.is_forall():
+            extra, body = skolemize_goal(g)
+            go(body, hyps + extra, depth)
+            return
+        if z3.is_app(g) and g.decl().name() in ghost_defs and depth < 2 and g.sort() == z3.BoolSort():
+            names, body = ghost_defs[g.decl().name()]
+            inst = z3.substitute(body, *[(n, a) for n, a in zip(names, g.children())])
+            go(inst, hyps, depth + 1)
+            return
+        leaves.append((hyps, g))
+
+    try:
+        go(goal, [], 0)
+    except OverflowError:
+        return [([], goal)]
+    return leaves
+
+
 def to_smt2(hyps, goal):
     s = z3.Solver()
     for h in hyps:
         s.add(h)
-    s.add(z3.Not(goal))
+    extra, g = skolemize_goal(goal)
+    for e in extra:
+        s.add(e)
+    s.add(z3.Not(g))
     return s.to_smt2()
 
 
@@ -29,6 +90,25 @@ def _z3_check(args):
         s.from_string(text)
         r = s.check()
         reason = s.reason_unknown() if r == z3.unknown else ''
+        if r == z3.unknown and 'incomplete' in reason and timeout_ms > 2000:
+            # E-matching gave up without a refutation.  With the default relevancy filter, ground terms that occur only in
+            # literals the SAT core considers irrelevant are not matched; retry with the weaker filter (an `unsat` answer
+            # is a proof under either setting).
+            model0 = ''
+            try:
+                model0 = str(s.model())[:20000]
+            except Exception:
+                pass
+            s2 = z3.Solver(ctx=ctx)
+            s2.set('auto_config', False)
+            s2.set('smt.mbqi', False)
+            s2.set('smt.relevancy', 1)
+            s2.set('timeout', timeout_ms)
+            s2.from_string(text)
+            r2 = s2.check()
+            if r2 == z3.unsat:
+                return 'unsat', 'relevancy=1', time.time() - t0, ''
+            return str(r), reason, time.time() - t0, model0
         model = ''
         if r == z3.sat or (r == z3.unknown and 'incomplete' in reason):
             try:
